@@ -457,6 +457,14 @@ def install(ex):
             n = deref(a[0]); return opt(n) if n in ("common", "container", "dict", "list", "math", "maybe", "preamble", "set", "unsafe") else opt()
         if c.endswith("library_source"):
             n = deref(a[0]); return opt("<std source of %s>" % n) if n in ("common", "container", "dict", "list", "math", "maybe", "preamble", "set", "unsafe") else opt()
+        if re.match(r"^<(std::path::)?(PathBuf|Path|&Path|&PathBuf) as (std::cmp::)?PartialEq(<.*>)?>::(eq|ne)$", c):
+            x, y = deref(a[0]), deref(a[1])
+            while isinstance(x, Ref): x = x.get()
+            while isinstance(y, Ref): y = y.get()
+            if isinstance(x, str) and isinstance(y, str): r = x == y
+            elif x is y: r = True
+            else: raise Unsupported("comparison of opaque paths %r %r" % (x, y))
+            return r if c.endswith("eq") else not r
         if c in ("Path::parent", "std::path::Path::parent", "Path::file_stem", "Path::file_name", "Path::extension", "Path::to_str", "OsStr::to_str", "std::ffi::OsStr::to_str"):
             return opt(Opaque("path"))
         if c.startswith("PathBuf::") or c.startswith("Path::") or "as AsRef<Path>>" in c or "as AsRef<OsStr>>" in c or c.startswith("std::path::") or c.startswith("OsStr::"):
